@@ -354,6 +354,17 @@ class NDAdapter(Adapter):
             if not okp or (not inplace and r["same_object"]):
                 bad.append("partial_normalize")
                 det["partial_normalize"] = {"expected": {str(c): f"{v[0]}/{v[1]}" for c, v in table.items()}, "observed": r["freq"].tolist()}
+        # a derived histogram never shares its arrays with the source (a later fill of one would change the other)
+        whole = action == "GetItem" and all(part[0] == "s" and part[1] == -99 and part[2] == -99 for part in args[0])
+        # (h[:] selects everything: the statement speaks of independence for "a real selection", physt returns h itself)
+        if "h" in real and "d" in real and real["h"] is not None and real["d"] is not None and not whole and real["h"] is not real["d"] or \
+                ("h" in real and "d" in real and real["h"] is real["d"] and real["h"] is not None and not whole and action in ("GetItem", "Project", "Transpose", "Accumulate", "Merge")):
+            for attr in ("frequencies", "errors2"):
+                a_, b_ = getattr(real["h"], attr, None), getattr(real["d"], attr, None)
+                if isinstance(a_, np.ndarray) and isinstance(b_, np.ndarray) and np.shares_memory(a_, b_):
+                    bad.append("aliasing"); det["aliasing"] = f"the derived histogram's {attr} share memory with the source's"
+            if real["h"] is real["d"]:
+                bad.append("aliasing"); det["aliasing"] = "the derived histogram is the source object"
         for key in ("h", "d"):
             rec = post[key]
             if "null" in rec:
